@@ -60,6 +60,13 @@ def _run(job):
                     doc = b.build(ann).to_dict()
                     defs = b.get_definitions().to_dict()
                     embedded = None
+                elif ev[0] == "Shared":
+                    # a one-off call that shares the builder's context and overrides ONE setting for itself
+                    ov, exp_out, exp_defs = ev[2], ev[3], ev[4]
+                    okw = {"inline": {"all_refs": False}, "refs": {"all_refs": True}, "prefix": {"ref_prefix": "#/y/"}}[ov]
+                    doc = build_json_schema(ann, context=b.context, with_definitions=False, **okw).to_dict()
+                    defs = b.get_definitions().to_dict()
+                    embedded = None
                 else:
                     wd, exp_out, exp_defs = ev[2], ev[3], ev[4]
                     doc = build_json_schema(ann, dialect=d, with_definitions=wd, **kw).to_dict()
@@ -76,7 +83,7 @@ def _run(job):
             if act_out != want_out:
                 problems.append(("ref-outside-context" if {r.split('"')[1] for r in act_out} != {r.split('"')[1] for r in want_out} else "dangling-ref",
                                  {"refs_in_schema": act_out, "expected": want_out}))
-            if ev[0] == "Build" or ev[2]:
+            if ev[0] in ("Build", "Shared") or ev[2]:
                 if sorted(defs) != sorted(exp_defs):
                     problems.append(("defs-not-monotone", {"definitions": sorted(defs), "expected": sorted(exp_defs)}))
                 else:
